@@ -273,6 +273,9 @@ static void observe(const char* who, fixed_vector<Elem<C>>& v, Model& m, const s
         static_cast<std::size_t>(cv.cend() - cv.cbegin()) != n)
     {
         viol("C07", "end-minus-begin-is-not-size", after);
+        if (static_cast<std::size_t>(v.end() - v.begin()) > n || static_cast<std::size_t>(cv.end() - cv.begin()) > n ||
+            static_cast<std::size_t>(cv.cend() - cv.cbegin()) > n)
+            viol("C06", "range-exposes-unfilled-slots:begin/end", after);
         return;
     }
     for (auto& e : v)
@@ -288,6 +291,9 @@ static void observe(const char* who, fixed_vector<Elem<C>>& v, Model& m, const s
             if (steps >= n)
             {
                 viol("C07", std::string("reverse-range-does-not-end-after-size-steps:") + which, after);
+                // the same observation for the memory-safety oracle: the range goes on into slots the caller
+                // never filled (or beyond the storage)
+                viol("C06", std::string("range-exposes-unfilled-slots:") + which, after);
                 return false;
             }
             out.push_back((*it).id);
